@@ -972,13 +972,13 @@ fn check_index_entry(cx: &Ctx) {
                 st.tick(pr);
                 if let Ok(Ok(p)) = catch_unwind(|| DoubleArrayAhoCorasick::<$t>::new(&pats)) {
                     let got: Vec<(usize, usize)> = p.find_overlapping_iter(&hay).map(|m| (m.start(), m.end())).collect();
-                    if got != exp { st.fail(mk_fail(pr, concat!("automaton returned by new() for more patterns than ", $name, " can number reports every occurrence"), "bytewise build", MatchKind::Standard, 16, &[], &[], &[], format!("{} occurrences", exp.len()), format!("{} occurrences", got.len()))); }
+                    if got != exp { st.fail(mk_fail(pr, concat!("index-entry: automaton returned by new() for more patterns than ", $name, " can number reports every occurrence"), "bytewise build", MatchKind::Standard, 16, &[], &[], &[], format!("{} occurrences", exp.len()), format!("{} occurrences", got.len()))); }
                 }
                 let sp: Vec<&str> = pats.iter().map(|p| std::str::from_utf8(p).unwrap()).collect();
                 let hs = std::str::from_utf8(&hay).unwrap();
                 if let Ok(Ok(p)) = catch_unwind(|| CharwiseDoubleArrayAhoCorasick::<$t>::new(&sp)) {
                     let got: Vec<(usize, usize)> = p.find_overlapping_iter(hs).map(|m| (m.start(), m.end())).collect();
-                    if got != exp { st.fail(mk_fail(pr, concat!("automaton returned by new() for more patterns than ", $name, " can number reports every occurrence"), "charwise build", MatchKind::Standard, 16, &[], &[], &[], format!("{} occurrences", exp.len()), format!("{} occurrences", got.len()))); }
+                    if got != exp { st.fail(mk_fail(pr, concat!("index-entry: automaton returned by new() for more patterns than ", $name, " can number reports every occurrence"), "charwise build", MatchKind::Standard, 16, &[], &[], &[], format!("{} occurrences", exp.len()), format!("{} occurrences", got.len()))); }
                 }
             } }
         }};
@@ -986,6 +986,54 @@ fn check_index_entry(cx: &Ctx) {
     one!(u8, 257, "u8");
     one!(i8, 129, "i8");
     one!(u8, 300, "u8");
+}
+
+/// C07 / C12: haystacks passed BY VALUE whose bytes live inside the value itself (`[u8; N]`): the iterator returned by
+/// the slice entry points owns the haystack and is moved around; whatever it caches must stay valid.  The iterator is
+/// produced in a non-inlined helper, the dead stack frame is overwritten, then the matches are collected and compared
+/// with a search of the same bytes behind a reference.
+#[inline(never)]
+fn clobber_stack(seed: u8) -> u64 {
+    let mut junk = [0u8; 4096];
+    for (i, x) in junk.iter_mut().enumerate() { *x = (i as u8).wrapping_mul(31).wrapping_add(seed); }
+    let mut acc = 0u64;
+    for x in junk.iter() { acc = acc.wrapping_mul(131).wrapping_add(*std::hint::black_box(x) as u64); }
+    std::hint::black_box(acc)
+}
+#[inline(never)]
+fn mk_find_inline<'a>(p: &'a DoubleArrayAhoCorasick<u32>, h: [u8; 48]) -> impl Iterator<Item = daachorse::Match<u32>> + 'a { p.find_iter(std::hint::black_box(h)) }
+#[inline(never)]
+fn mk_ovl_inline<'a>(p: &'a DoubleArrayAhoCorasick<u32>, h: [u8; 48]) -> impl Iterator<Item = daachorse::Match<u32>> + 'a { p.find_overlapping_iter(std::hint::black_box(h)) }
+#[inline(never)]
+fn mk_nosuf_inline<'a>(p: &'a DoubleArrayAhoCorasick<u32>, h: [u8; 48]) -> impl Iterator<Item = daachorse::Match<u32>> + 'a { p.find_overlapping_no_suffix_iter(std::hint::black_box(h)) }
+#[inline(never)]
+fn mk_lm_inline<'a>(p: &'a DoubleArrayAhoCorasick<u32>, h: [u8; 48]) -> impl Iterator<Item = daachorse::Match<u32>> + 'a { p.leftmost_find_iter(std::hint::black_box(h)) }
+
+fn check_inline_haystack(cx: &Ctx) {
+    if !(cx.on("C07") || cx.on("C12")) { return; }
+    let st = cx.st;
+    let pats: Vec<Vec<u8>> = vec![b"abc".to_vec(), b"bc".to_vec(), b"cab".to_vec(), vec![0, 255]];
+    let vals: Vec<u32> = vec![0, 1, 2, 3];
+    let mut h = [b'x'; 48];
+    h[3..6].copy_from_slice(b"abc"); h[20..23].copy_from_slice(b"cab"); h[23] = b'c'; h[40] = 0; h[41] = 255;
+    for kind in KINDS {
+        let p = match build_bw(&pats, &vals, kind, 16) { Ok(p) => p, Err(_) => continue };
+        let ms = |it: &mut dyn Iterator<Item = daachorse::Match<u32>>| -> Vec<M> { it.map(|m| (m.start(), m.end(), m.value())).collect() };
+        let mut cases: Vec<(&str, Vec<M>, Vec<M>)> = vec![];
+        if kind == MatchKind::Standard {
+            let mut it = mk_find_inline(&p, h); clobber_stack(1); let got = ms(&mut it); cases.push(("find_iter([u8; 48] by value)", ms(&mut p.find_iter(&h[..])), got));
+            let mut it = mk_ovl_inline(&p, h); clobber_stack(2); let got = ms(&mut it); cases.push(("find_overlapping_iter([u8; 48] by value)", ms(&mut p.find_overlapping_iter(&h[..])), got));
+            let mut it = mk_nosuf_inline(&p, h); clobber_stack(3); let got = ms(&mut it); cases.push(("find_overlapping_no_suffix_iter([u8; 48] by value)", ms(&mut p.find_overlapping_no_suffix_iter(&h[..])), got));
+        } else {
+            let mut it = mk_lm_inline(&p, h); clobber_stack(4); let got = ms(&mut it); cases.push(("leftmost_find_iter([u8; 48] by value)", ms(&mut p.leftmost_find_iter(&h[..])), got));
+        }
+        for (name, exp, got) in cases {
+            for pr in ["C07", "C12"] { if cx.on(pr) {
+                st.tick(pr);
+                if exp != got { st.fail(mk_fail(pr, "owned-haystack: a haystack owned by the iterator (bytes stored inline, iterator moved) gives the results of the same bytes behind a reference", name, kind, 16, &[], &[], &[], format!("{:?}", exp), format!("{:?}", got))); }
+            } }
+        }
+    }
 }
 
 // ------------------------------------------------------------------------------------------------
@@ -1264,6 +1312,7 @@ fn replay(path: &str) -> i32 {
         println!("(fixed family: the clause names the input it builds)");
         check_conversion(&cx);
         check_index_entry(&cx);
+        check_inline_haystack(&cx);
         check_kind_guards(&cx);
     }
     else {
@@ -1335,6 +1384,7 @@ fn main() {
     }
     check_conversion(&cx);
     check_index_entry(&cx);
+    check_inline_haystack(&cx);
     check_kind_guards(&cx);
     let vt_pats = vec![b(b"ab"), b(b"b"), b(b"abc"), b(b"c"), b("é".as_bytes())];
     check_value_types(&cx, &vt_pats, &b("xabcéb".as_bytes()));
